@@ -224,6 +224,13 @@ class Exec(ExprMixin, StmtMixin, CallMixin):
             self.cur_module, self.cur_class = mod, cls
         self.fn = fn
         self.number_loops(fn)
+        self.body = fn.body
+        frag = ct.ghost.get('fragment')
+        if frag is not None:          # contract on one loop of the function, from arbitrary values of its live variables
+            node = [n for n in ast.walk(fn) if isinstance(n, (ast.For, ast.While)) and self.loop_ordinals[id(n)] == frag['loop']]
+            if not node:
+                raise KeyError('%s has no loop %d' % (ct.qual, frag['loop']))
+            self.body = [node[0]]
         self.worklist = [[]]
         while self.worklist:
             self.prescribed = self.worklist.pop()
@@ -238,6 +245,8 @@ class Exec(ExprMixin, StmtMixin, CallMixin):
                 st.assume(self.spec_bool(text, st))
             for lbl, (text, _) in self.reg.axioms.items():
                 st.assume(self.spec_bool(text, st))
+            if self.paths == 1:
+                self.covers.append(('requires-satisfiable', list(st.pc)))
             st.old = st.snapshot()
             if ct.kind == 'generator':
                 st.yielded = SV(SeqT(ct.yields), z3.Empty(z3.SeqSort(zsort(ct.yields))))
@@ -247,7 +256,7 @@ class Exec(ExprMixin, StmtMixin, CallMixin):
     def run_path(self, st):
         ct = self.ct
         try:
-            out = self.exec_block(self.fn.body, st)
+            out = self.exec_block(self.body, st)
         except PathEnd:
             self.exits['cut'] += 1
             return
@@ -272,7 +281,8 @@ class Exec(ExprMixin, StmtMixin, CallMixin):
         if ct.returns is not None and not isinstance(result, PyVal):
             result = coerce(result, ct.returns)
         post = st.fork()
-        post.env = dict(st.old.env)
+        if ct.ghost.get('fragment') is None:
+            post.env = dict(st.old.env)          # ensures speak about the entry values of the parameters
         for r in ct.raises:
             w = self.spec_bool(r.when, st.old.fork())
             self.oblige(st, 'raises-when-required', r.exc, z3.Not(w), 'normal exit only when not (%s)' % r.when, where='normal-exit')
